@@ -333,8 +333,50 @@ func extractRPCServerDone(p *pkgs, f *facts) {
 	} else {
 		f.miss = append(f.miss, "cmdrunner.ReattachFunc")
 	}
-	f.lean = append(f.lean, fmt.Sprintf("def reattachProbe : Lifecycle.ReattachParams := ⟨%s⟩", leanBool(probe)))
-	f.set("reattachProbe", map[string]interface{}{"probeConnects": probe})
+	// CmdAttachedRunner.Wait returns pidWait(<recv>.pid) and nothing else; pidWait is `ticker := time.NewTicker(<const>)` +
+	// `for range ticker.C { if !pidAlive(pid) { break } }` (no Sleep, no interval variable that changes)
+	waitPolls := false
+	var pollMs int64
+	if w := p.fn("CmdAttachedRunner", "Wait"); w != nil && len(w.Body.List) == 1 {
+		if rs, ok := w.Body.List[0].(*ast.ReturnStmt); ok && len(rs.Results) == 1 && strings.HasPrefix(exprString(rs.Results[0]), "pidWait(") {
+			waitPolls = true
+		}
+	}
+	if pw := p.fn("", "pidWait"); pw != nil {
+		cs := nodeCalls(pw.Body)
+		ok := !strings.Contains(cs, "time.Sleep(") && !strings.Contains(cs, "time.After(")
+		nAssign := 0
+		ast.Inspect(pw.Body, func(n ast.Node) bool {
+			switch v := n.(type) {
+			case *ast.AssignStmt:
+				if v.Tok != token.DEFINE {
+					nAssign++
+				}
+			case *ast.IncDecStmt:
+				nAssign++
+			case *ast.CallExpr:
+				if exprString(v.Fun) == "time.NewTicker" && len(v.Args) == 1 {
+					if ms, good := p.evalInt(v.Args[0]); good {
+						pollMs = ms
+					}
+				}
+			}
+			return true
+		})
+		hasRange := false
+		for _, st := range pw.Body.List {
+			if rs, isR := st.(*ast.RangeStmt); isR && strings.HasSuffix(exprString(rs.X), ".C") {
+				hasRange = true
+			}
+		}
+		if !ok || nAssign != 0 || !hasRange {
+			pollMs = 0
+		}
+	} else {
+		f.miss = append(f.miss, "cmdrunner.pidWait")
+	}
+	f.lean = append(f.lean, fmt.Sprintf("def reattachProbe : Lifecycle.ReattachParams := ⟨%s, %s, %d⟩", leanBool(probe), leanBool(waitPolls), pollMs))
+	f.set("reattachProbe", map[string]interface{}{"probeConnects": probe, "waitPolls": waitPolls, "pollMs": pollMs})
 	f.lean = append(f.lean, fmt.Sprintf("def rpcServer : Lifecycle.ServerParams := ⟨%s⟩", leanBool(only)))
 	f.set("rpcServer", map[string]interface{}{"doneOnlyOnQuit": only, "doneCallers": fmt.Sprint(callers)})
 }
